@@ -33,11 +33,24 @@ POOL = [
     (recognize_boolean, ('well yes', 'en-us')),
     (recognize_number, ('twelve', 'en-gb')),
     (recognize_number, ('douze', 'fr-ca')),
+    # the same text under cultures that read it differently (a memo or cache keyed without the culture would mix them up)
+    (recognize_number, ('2,500', 'en-us')),
+    (recognize_number, ('2,500', 'de-de')),
+    (recognize_number, ('1.234', 'es-es')),
+    (recognize_number, ('1.234', 'en-us')),
+    (recognize_currency, ('2,500 euros', 'fr-fr')),
+    (recognize_currency, ('2,500 euros', 'en-us')),
+    (recognize_datetime, ('03/04/2019', 'en-us')),
+    (recognize_datetime, ('03/04/2019', 'fr-fr')),
 ]
 CACHE = ModelFactory._ModelFactory__cache
 
 
+HISTORY = []          # every request this process has made so far (paths of one exploration share the process: that is more history, not less)
+
+
 def call(k):
+    HISTORY.append(int(k))
     f, (q, c) = POOL[k]
     if f is recognize_datetime:
         rs = f(q, c, reference=REF)
@@ -46,13 +59,35 @@ def call(k):
     return [(r.text, r.start, r.end, r.type_name, repr(r.resolution)) for r in rs]
 
 
-def solo(k):
-    """the request made alone: cold cache, main thread"""
-    CACHE.clear()
-    return call(k)
+def solo_fresh():
+    """every request made alone in a *fresh interpreter* (nothing at all can have been recognised before).  Computed once per
+    ./check run (first worker, under a file lock) and shared through a scratch file that is removed by the last line of the run."""
+    import fcntl
+    import subprocess
+    import sys
+    import tempfile
+    rid = os.environ.get('VERIF_RUN_ID', str(os.getpid()))
+    path = os.path.join(tempfile.gettempdir(), 'verif_c02_solo_%s.json' % rid)
+    with open(path + '.lock', 'w') as lk:
+        fcntl.flock(lk, fcntl.LOCK_EX)
+        if os.path.exists(path):
+            return [[tuple(x) for x in r] for r in json.load(open(path))]
+        code = ('import sys, json; sys.path.insert(0, %r); import harness.C02 as H; print("SOLO " + json.dumps(H.call(int(sys.argv[1]))))' % env.VERIF)
+        envv = dict(os.environ, VERIF_C02_CHILD='1')
+        procs = [subprocess.Popen([sys.executable, '-W', 'ignore', '-c', code, str(k)], stdout=subprocess.PIPE, stderr=subprocess.DEVNULL, text=True, env=envv)
+                 for k in range(len(POOL))]
+        out = []
+        for p_ in procs:
+            so, _ = p_.communicate()
+            line = [l for l in so.splitlines() if l.startswith('SOLO ')]
+            if not line:
+                raise env.HarnessError('fresh-interpreter baseline failed for a request')
+            out.append(json.loads(line[-1][5:]))
+        json.dump(out, open(path, 'w'))
+        return [[tuple(x) for x in r] for r in out]
 
 
-SOLO = [solo(k) for k in range(len(POOL))]
+SOLO = [] if os.environ.get('VERIF_C02_CHILD') else solo_fresh()
 I0 = sl('i', None)
 
 
@@ -99,3 +134,100 @@ def h_concurrent(j: int, n: int):
     for t in ts:
         t.join()
     assert len(outs) == n and all(o == SOLO[j] for o in outs), (POOL[j][1], outs)
+
+
+# ---- inventory of state that outlives a call (frame condition of the purity argument) -----------------------------------------------
+def _scan_shared_state():
+    """class-level and module-level mutable containers in the recogniser packages (resource tables excluded): the only
+    places through which one call can influence another"""
+    import ast
+    root = os.path.join(env.REPO, 'Python', 'libraries')
+    found = []
+    for lib in env.LIBS:
+        for dp, dn, fn in os.walk(os.path.join(root, lib)):
+            if os.sep + 'resources' in dp or os.sep + 'tests' in dp:
+                continue
+            for f in fn:
+                if not f.endswith('.py') or f == 'setup.py':
+                    continue
+                path = os.path.join(dp, f)
+                try:
+                    tree = ast.parse(open(path, encoding='utf-8').read())
+                except SyntaxError:
+                    continue
+
+                def mutable(v):
+                    if isinstance(v, (ast.Dict, ast.List, ast.Set, ast.DictComp, ast.ListComp, ast.SetComp)):
+                        return True
+                    if isinstance(v, ast.Call):
+                        n = v.func
+                        name = n.id if isinstance(n, ast.Name) else getattr(n, 'attr', '')
+                        return name in ('dict', 'list', 'set', 'defaultdict', 'OrderedDict', 'Counter', 'deque', 'lru_cache', 'cache')
+                    return False
+
+                def visit(body, owner):
+                    for st in body:
+                        if isinstance(st, ast.ClassDef):
+                            visit(st.body, st.name)
+                        targets, value = [], None
+                        if isinstance(st, ast.Assign):
+                            targets, value = st.targets, st.value
+                        elif isinstance(st, ast.AnnAssign) and st.value is not None:
+                            targets, value = [st.target], st.value
+                        for t in targets:
+                            if isinstance(t, ast.Name) and value is not None and mutable(value):
+                                found.append('%s:%s.%s' % (os.path.relpath(path, root), owner, t.id))
+                        if isinstance(st, (ast.FunctionDef, ast.AsyncFunctionDef)):
+                            for d in st.decorator_list:
+                                n = d.func if isinstance(d, ast.Call) else d
+                                nm = n.id if isinstance(n, ast.Name) else getattr(n, 'attr', '')
+                                if nm in ('lru_cache', 'cache', 'cached_property'):
+                                    found.append('%s:%s.%s@%s' % (os.path.relpath(path, root), owner, st.name, nm))
+                            for dflt in st.args.defaults + [d for d in st.args.kw_defaults if d is not None]:
+                                if mutable(dflt):
+                                    found.append('%s:%s.%s(mutable default)' % (os.path.relpath(path, root), owner, st.name))
+                visit(tree.body, '<module>')
+    return sorted(set(found))
+
+
+ALLOW = os.path.join(os.path.dirname(os.path.abspath(__file__)), 'state_allowlist.json')
+
+
+def state_inventory(slice_, timeout):
+    found = _scan_shared_state()
+    allow = json.load(open(ALLOW))['allowed']
+    new = [x for x in found if x not in allow]
+    if new:
+        return {'state': 'inconclusive', 'queries': len(found),
+                'detail': 'frame-changed: new class/module-level mutable state not covered by the purity argument: %s' % ', '.join(new[:8])}
+    return {'state': 'discharged', 'detail': '%d shared mutable objects, all on the reviewed list' % len(found), 'queries': len(found), 'sample': {'objects': found[:6]}}
+
+
+def history_pairs(slice_, timeout):
+    """symx exploration of h_history; a counterexample carries the whole request history of the process, because state that leaks
+    between requests also leaks between explored paths, and the replay must reproduce that history in a fresh interpreter"""
+    from lib import symx
+    symx.selftest()
+    del HISTORY[:]
+    r = symx.explore(h_history, timeout)
+    if r.get('state') == 'counterexample':
+        r['cex'] = dict(r['cex'], history=list(HISTORY))
+    return r
+
+
+def history_pairs__replay(slice_, cex):
+    hist = cex.get('history') or [cex['i'], cex['j']]
+    j = hist[-1]
+    CACHE.clear()
+    for k in hist[:-1]:
+        call(k)
+    out = []
+    if cex.get('thread'):
+        t = threading.Thread(target=lambda: out.append(call(j)))
+        t.start()
+        t.join()
+    else:
+        out.append(call(j))
+    bad = out[0] != SOLO[j]
+    return {'reproduced': bad, 'detail': 'after the history %r the request %r returns %r; alone in a fresh interpreter it returns %r' % (
+        [POOL[k][1] for k in hist[:-1]][-6:], POOL[j][1], out[0], SOLO[j])}
